@@ -346,6 +346,10 @@ pub fn pipeline_programs(seed: u64, family: &str, n: usize, emit: &mut dyn FnMut
                 let p = vm::gen_program(&mut r, flavour);
                 (vm::gen_cfg(&mut r, flavour), p)
             }
+            5 if r.chance(1, 2) => ("30000000,10,50,250,394,0".to_string(), crate::fam::idiom::mask_chain_program(&mut r)),
+            6 if r.chance(1, 4) => ("30000000,10,50,250,394,0".to_string(), crate::fam::idiom::repeated_motif_program(&mut r)),
+            6 if r.chance(1, 2) => ("30000000,10,50,250,394,0".to_string(), crate::fam::idiom::mixed_lookalike_program(&mut r)),
+            7 if r.chance(1, 3) => ("30000000,10,50,250,394,0".to_string(), crate::fam::idiom::hashed_literal_program(&mut r)),
             8 if r.chance(1, 2) => ("30000000,10,50,250,394,0".to_string(), crate::fam::idiom::storage_free_program(&mut r)),
             8 => {
                 // random bytes
@@ -370,6 +374,11 @@ pub fn generate(seed: u64, n: usize, _tier: &str, emit: &mut dyn FnMut(String)) 
     for f in vm::FIXED {
         emit(format!("natural 30000000,10,50,250,394,0 {f}"));
     }
+    // growth with program length: a chain of loads from loaded words, and a word copied between two
+    // slots with a re-load after every copy
+    emit(format!("natural 30000000,10,50,250,394,0 5f{}5f5500", "54".repeat(40)));
+    emit(format!("natural 30000000,10,50,250,394,0 5f{}5f5500", "54".repeat(3000)));
+    emit(format!("natural 30000000,10,50,250,394,0 5f54{}5f5500", "6001556001545f555f54".repeat(2400)));
     pipeline_programs(seed, "pipeline", n, &mut |cfg, prog| emit(format!("natural {cfg} {}", util::bytes_to_hex(&prog))));
 }
 
